@@ -24,7 +24,8 @@ pub fn plan(seed: u64, nf: usize, nc: usize) -> Plan {
     }
     // make the scalar fields differ between contexts in a way that flips set membership
     let ivals: [i64; 5] = [1, 2, 5, 100, 7];
-    let svals: [&[u8]; 5] = [b"ab", b"b", b"xxabxx", b"", b"aab"];
+    // "ab" and "ba" have the same length (and so do their buffers) but opposite verdicts for most pattern filters
+    let svals: [&[u8]; 5] = [b"ab", b"ba", b"xxabxx", b"", b"aab"];
     for (k, c) in ctxs.iter_mut().enumerate() {
         c.vals[0] = Val::int(ivals[k % 5]);
         c.vals[1] = Val::int(ivals[(k + 2) % 5]);
@@ -192,6 +193,25 @@ pub fn run(p: &Plan, threads: usize, rounds: usize, simd_expected: bool, id0: &m
             out.push(json!({"ev": "conc", "id": *id0, "th": t + 1, "threads": threads, "rounds": rounds, "f": f + 1, "c": c + 1,
                             "results": rs, "simd": simd, "simd_expected": simd_expected}));
             *id0 += 1;
+        }
+    }
+    // recycled buffers: contexts are built, used once and dropped, alternating between two contexts whose values
+    // have equal sizes, so that the allocator hands the same memory to different contents; a long-lived filter
+    // must not remember anything about memory it has seen
+    for _ in 0..60 {
+        for c in 0..nc.min(2) {
+            let fresh = build_ctx(scheme, &p.specs[0], &p.ctxs[c]);
+            for f in 0..nf {
+                let r = std::panic::catch_unwind(std::panic::AssertUnwindSafe(|| filters[f].execute(&fresh)));
+                let rs = match r {
+                    Ok(Ok(b)) => vec![json!(b)],
+                    _ => vec![json!(true), json!(false), json!(true)],
+                };
+                out.push(json!({"ev": "conc", "id": *id0, "th": 0, "threads": threads, "rounds": 1, "f": f + 1, "c": c + 1,
+                                "results": rs, "simd": simd, "simd_expected": simd_expected}));
+                *id0 += 1;
+            }
+            drop(fresh);
         }
     }
     // recompilation: a fresh compilation of every filter must agree too (fresh random anchors)
